@@ -1045,7 +1045,7 @@ func main() {
 		child(*seed, *family)
 		return
 	}
-	fams := []string{"mixed", "startup", "timeout", "state", "reload", "sdsender", "big", "gatefail", "finalstate", "errs", "earlyshutdown", "latesub", "subclose"}
+	fams := []string{"mixed", "startup", "timeout", "state", "reload", "sdsender", "big", "gatefail", "finalstate", "errs", "earlyshutdown", "latesub", "subclose", "gatecancel", "subentry"}
 	type job struct {
 		seed uint64
 		fam  string
